@@ -2309,6 +2309,8 @@ def r4_resolution(run):
                 v = getattr(n.ast, 'value', None)
                 if isinstance(n.ast, ast.Assign) and isinstance(v, ast.Name) and v.id == dflt:
                     out.append('DEFAULT')
+                elif isinstance(n.ast, ast.Assign) and _pure_case_fold(v, is_mt):
+                    pass        # `mt = mt.lower()`: emptiness and "is */*" are unchanged; whether folding is right is R9's verdict
                 else:
                     raise UnknownIdiom('resolver: requested type rebound by %s' % short(n.ast, 80))
         if n.id in use_ids:
@@ -2870,6 +2872,356 @@ def r7_resolve_by_content_type(run):
             raise UnknownIdiom('%s: resolver calls of %s and %s differ in a way the rule does not understand' % (side, wq, aq))
 
 
+# ---------------------------------------------------------------------------
+# R8 q never decides WHETHER a range matches (added after seeded changes
+# s4-c04-2 / s4-c11-1; shared with C04, whose default error serializer picks
+# JSON or XML through client_prefers()/quality())
+# ---------------------------------------------------------------------------
+#
+# quality() answers with the q of the MOST SPECIFIC matching range.  A range
+# with q=0 is how a client excludes a type from a broader wildcard
+# (`application/json;q=0, */*`): it has to take part in the ranking like any
+# other range and win by specificity.  If it "does not match" - in
+# match_score(), or because it was dropped before scoring - the refused type
+# falls through to the wildcard and is acceptable again.  So:
+#   * the not-matching returns of match_score() depend only on the type /
+#     subtype / parameter comparisons: a not-matching return that is guarded
+#     by (dominated by a branch of) a test that reads `quality` - directly or
+#     through locals (def-use, _Roles.features) - or whose value is computed
+#     from it, is a violation;
+#   * no condition in _parse_media_ranges() / quality() - comprehension `if`,
+#     if/while test, conditional expression, filter() predicate - reads the
+#     `quality` of a range.
+# Which guards a not-matching return has otherwise, their order and spelling
+# are not looked at (R1 decides the rest).
+
+Q_ATTR = 'quality'
+R8_SCORERS = ('_parse_media_ranges', 'quality')
+_R8_WITNESS = "quality('application/json', 'application/json;q=0, */*') is 1.0 instead of 0.0: the refused type is served " \
+              '(client_prefers() / the default error serializer pick it)'
+
+
+def _ifexp_arms(e, tests=()):
+    """(arm value, IfExp tests on the way to it) of a possibly nested conditional expression"""
+    if isinstance(e, ast.IfExp):
+        yield from _ifexp_arms(e.body, tests + (e.test,))
+        yield from _ifexp_arms(e.orelse, tests + (e.test,))
+    else:
+        yield e, tests
+
+
+def _reads_q_deep(e) -> bool:
+    """a `.quality` read (or the attribute name as a string, for attrgetter) anywhere below e, lambdas included"""
+    return any((isinstance(n, ast.Attribute) and n.attr == Q_ATTR) or (isinstance(n, ast.Constant) and n.value == Q_ATTR) for n in ast.walk(e))
+
+
+def _conditions(f: Func):
+    """(kind, expression) of everything in `f` that selects: statement tests, conditional expressions, comprehension
+    conditions (nested lambdas/comprehensions included), predicates of filter()/filterfalse()"""
+    for n in ast.walk(f.node):
+        if isinstance(n, (ast.FunctionDef, ast.AsyncFunctionDef)) and n is not f.node:
+            raise UnknownIdiom('%s: nested function %s' % (f.qual, n.name))
+        if isinstance(n, (ast.If, ast.While)):
+            yield 'test', n.test
+        elif isinstance(n, ast.IfExp):
+            yield 'conditional expression', n.test
+        elif isinstance(n, ast.comprehension):
+            for c in n.ifs:
+                yield 'comprehension condition', c
+        elif isinstance(n, ast.Call) and (dotted(n.func) or '').split('.')[-1] in ('filter', 'filterfalse') and n.args:
+            yield 'filter predicate', n.args[0]
+        elif isinstance(n, (ast.Match, ast.Assert)):
+            raise UnknownIdiom('%s: %s statement' % (f.qual, type(n).__name__.lower()))
+
+
+def _deciding_tests(cfg, roles: _Roles, ret: ast.Return, nids) -> List[Tuple[ast.AST, bool, int]]:
+    """The tests that DECIDE that `ret` is taken - (test expression, outcome, line):
+      * the tests of the if/while statements that enclose it (any depth; the else-side counts with outcome False), and
+      * the tests it is directly control-dependent on: one branch of the test always ends in `ret` (ret post-dominates that
+        successor, exceptional edges aside) and the other does not - the `if c: return score` / fall-through shape.
+    Being merely reached after an earlier guard returned (dominance by its other branch) decides nothing about THIS return
+    and is not counted."""
+    out, seen = [], set()
+
+    def add(t, truth, lineno):
+        k = (unparse(t), truth, lineno)
+        if k not in seen:
+            seen.add(k)
+            out.append((t, truth, lineno))
+
+    child, cur = ret, roles.parent.get(id(ret))
+    while cur is not None and cur is not roles.f.node:
+        if isinstance(cur, (ast.If, ast.While)):
+            add(cur.test, any(child is s for s in cur.body), cur.lineno)
+        child, cur = cur, roles.parent.get(id(cur))
+    ends = [cfg.exit, cfg.xexit]
+    for n in cfg.live_nodes():
+        if n.kind != 'test':
+            continue
+        branches = [(y, l) for (y, l) in cfg.succ[n.id] if l in ('T', 'F')]
+        always = [(y, l) for (y, l) in branches
+                  if (y in nids or flow.find_path(cfg, [y], nids, edge_filter=flow.no_exc) is not None)
+                  and flow.find_path(cfg, [y], ends, avoid_nodes=nids, edge_filter=flow.no_exc) is None]
+        if always and len(always) < len(branches):
+            for y, l in always:
+                add(n.ast, l == 'T', n.lineno)
+    return out
+
+
+def r8_q_never_decides_match(run):
+    p = run.project
+    ms = p.func(MEDIATYPES + '._MediaRange.match_score')
+    cfg = cfg_of(ms, p)
+    run.use_cfg(cfg)
+    roles = _Roles(ms)
+    # every return, split into the arms of a conditional expression; a local bound once stands for its value
+    arms_of: List[Tuple[ast.Return, list]] = []
+    for r in _returns(ms):
+        if r.value is None:
+            raise UnknownIdiom('match_score: bare return')
+        arms_of.append((r, [(_expand_name(ms, v), tests) for v, tests in _ifexp_arms(_expand_name(ms, r.value))]))
+    real_values = [v for _, arms in arms_of for v, _ in arms if _is_real_score(v)]
+    sentinels = [(r, arms) for r, arms in arms_of if any(not _is_real_score(v) for v, _ in arms)]
+    if not real_values:
+        raise AnchorError('match_score: no return of a score tuple found')
+    if not sentinels:
+        raise AnchorError('match_score: no not-matching return found')
+    # anchor: the real score does carry the q of the range (otherwise `quality` is not the contract name any more)
+    if not any(Q_ATTR in roles.features(e, control=False)[0] for v in real_values for e in v.elts):
+        raise AnchorError('match_score: no score component is derived from self.%s' % Q_ATTR)
+
+    def reads_q(e) -> bool:
+        return Q_ATTR in roles.features(e)[0]
+
+    def sources(e) -> str:
+        return ', '.join(sorted(roles.features(e)[0])) or 'no contract attribute'
+
+    flagged: Set[int] = set()
+    for r, arms in sentinels:
+        nids = cfg.nodes_for(r)
+        if not nids:
+            continue                                 # dead code
+        bad_tests = []
+        for v, tests in arms:
+            if _is_real_score(v):
+                continue
+            if reads_q(v):
+                bad_tests.append((v, 'the not-matching value %s is computed from the q of the range' % short(v, 60), r.lineno))
+            for t in tests:
+                if reads_q(t):
+                    bad_tests.append((t, 'the conditional expression answers "not matching" depending on %s' % short(t, 60), r.lineno))
+        guards = _deciding_tests(cfg, roles, r, nids)
+        for t, truth, lineno in guards:
+            if reads_q(t):
+                bad_tests.append((t, 'the not-matching return is taken when %s is %s' % (short(t, 60), str(truth).lower()), lineno))
+        what = 'whether a range matches is decided by the type / subtype / parameter comparisons only: a not-matching return of ' \
+               'match_score() never depends on the q of the range (q is the LAST component of a real score - a q=0 range must win by ' \
+               'specificity to shadow a wildcard)'
+        if not bad_tests:
+            run.ok(what + ' [deciding tests read: %s]' % ('; '.join(sources(t) for t, _, _ in guards) or 'none'), ms.loc(r), r)
+            continue
+        path = flow.find_path(cfg, [cfg.entry], nids)
+        for e, why, lineno in bad_tests:
+            if id(e) in flagged:
+                continue
+            flagged.add(id(e))
+            run.fail(what, ms, e, where='%s:%s' % (ms.file, lineno), witness=[why] + (flow.describe_path(cfg, path) if path else []),
+                     runtime_witness=_R8_WITNESS)
+
+    # the ranges are neither dropped before scoring nor skipped while scoring because of their q
+    for name in R8_SCORERS:
+        f = p.func('%s.%s' % (MEDIATYPES, name))
+        run.use(f)
+        froles = _Roles(f)
+        n_cond, bad = 0, []
+        for kind, c in _conditions(f):
+            n_cond += 1
+            if _reads_q_deep(c):
+                bad.append((kind, c))
+                continue
+            try:
+                if Q_ATTR in froles.features(c, control=False)[0]:
+                    bad.append((kind, c))
+            except UnknownIdiom:
+                pass        # a local this rule cannot trace: it is not a direct read of a range's q (R1 decides the wiring)
+        what = '%s() hands every range of the header to the ranking whatever its q: no condition in it reads the q of a range ' \
+               '(a q=0 range that is the most specific match has to shadow the less specific ones)' % name
+        if not bad:
+            run.ok(what + ' [%d condition(s)]' % n_cond, f.loc())
+        for kind, c in bad:
+            run.fail(what, f, c, where=f.loc(c), witness=['%s %s' % (kind, short(c, 80))], runtime_witness=_R8_WITNESS)
+
+
+# ---------------------------------------------------------------------------
+# R9 the requested type and the registered keys meet in the same case form
+# (added after seeded change s4-c12-2; shared with C12)
+# ---------------------------------------------------------------------------
+#
+# The resolver compares the requested type with the registered keys twice:
+# `self.data[<type>]` and best_match() over the current keys - both compare
+# case-sensitively (dict lookup; match_score() uses == on type/subtype).  A
+# case fold (frozen table CASE_FOLDS) applied to ONE side only makes a key
+# with a letter of the other case unreachable: lower-casing the requested type
+# in the resolver turns a handler registered as
+# 'application/vnd.Acme.Order.v2+json' into a 415.  Decided:
+#   * requested side: folds in a rebinding of the resolver's media-type
+#     parameter, or inline in the operand of the exact lookup / of the
+#     best-match call;
+#   * key side: folds applied to the key parameter in Handlers.__setitem__
+#     (every writer stores through it - R3).
+# Equal fold sets on both sides (none today) hold; a fold on one side only is
+# a violation reported on the folding construct.  Any other rebinding of the
+# requested type, and keys folded only at comparison time, stay unknown idioms.
+
+CASE_FOLDS = ('lower', 'upper', 'casefold', 'title', 'capitalize', 'swapcase')
+_R9_WITNESS = "handlers['application/vnd.Acme.Order.v2+json'] = h; a request / response with exactly that content type answers 415 " \
+              '(get_media() raises HTTPUnsupportedMediaType, render_body() cannot serialize)'
+
+
+def _pure_case_fold(e, is_base) -> bool:
+    """base.lower() / base.strip-free chain of no-argument case folds"""
+    n = 0
+    while isinstance(e, ast.Call) and isinstance(e.func, ast.Attribute) and e.func.attr in CASE_FOLDS and not e.args and not e.keywords:
+        e = e.func.value
+        n += 1
+    return n > 0 and is_base(e)
+
+
+def _text_derived(e, names: Set[str]) -> bool:
+    """`e` is one of `names` or text computed from it: method-call chains, subscripts, `or`/`and`/conditional alternatives,
+    str(x) / format arguments are NOT followed (a message built from the type is not the type)"""
+    e = _unwrap_cast(e)
+    if isinstance(e, ast.Name):
+        return e.id in names
+    if isinstance(e, ast.Call) and isinstance(e.func, ast.Attribute):
+        return _text_derived(e.func.value, names)
+    if isinstance(e, ast.Subscript):
+        return _text_derived(e.value, names)
+    if isinstance(e, ast.BoolOp):
+        return any(_text_derived(v, names) for v in e.values)
+    if isinstance(e, ast.IfExp):
+        return _text_derived(e.body, names) or _text_derived(e.orelse, names)
+    return False
+
+
+def _folds_in(e, names: Set[str]) -> List[str]:
+    """case folds applied (anywhere below `e`, comprehensions included) to text derived from `names`"""
+    return sorted({n.func.attr for n in ast.walk(e) if isinstance(n, ast.Call) and isinstance(n.func, ast.Attribute)
+                   and n.func.attr in CASE_FOLDS and _text_derived(n.func.value, names)})
+
+
+def _derived_closure(fnode, name: str) -> Set[str]:
+    out = {name}
+    changed = True
+    while changed:
+        changed = False
+        for n in walk_self(fnode):
+            if isinstance(n, ast.Assign) and _text_derived(n.value, out):
+                for t in n.targets:
+                    if isinstance(t, ast.Name) and t.id not in out:
+                        out.add(t.id)
+                        changed = True
+    return out
+
+
+def r9_same_case_form(run):
+    p = run.project
+    cr = p.func(HANDLERS + '._create_resolver')
+    res = single(list(cr.nested.values()), 'nested resolver function', cr.qual)
+    run.use(res)
+    params = _param_names(res, skip_self=False)
+    if len(params) != 3:
+        raise UnknownIdiom('resolver takes %s' % params)
+    mt, dflt, _ = params
+    names = _derived_closure(res.node, mt)
+
+    # --- requested side
+    req: List[Tuple[ast.AST, List[str]]] = []          # (construct, folds)
+    n_ops = 0
+    for n in walk_self(res.node):
+        if isinstance(n, (ast.Assign, ast.AnnAssign, ast.AugAssign)):
+            tgts = n.targets if isinstance(n, ast.Assign) else [n.target]
+            if not any(isinstance(t, ast.Name) and t.id == mt for t in tgts):
+                continue
+            v = getattr(n, 'value', None)
+            if isinstance(n, ast.Assign) and isinstance(v, ast.Name) and v.id == dflt:
+                continue                                   # the default fallback (R4)
+            folds = _folds_in(v, names | {dflt}) if isinstance(n, ast.Assign) and v is not None and _text_derived(v, names | {dflt}) else []
+            if not folds:
+                raise UnknownIdiom('resolver: requested type rebound by %s' % short(n, 80))
+            req.append((n, folds))
+        elif isinstance(n, ast.Subscript) and isinstance(n.ctx, ast.Load) and _is_selfdata(n.value) and _text_derived(n.slice, names):
+            n_ops += 1
+            if _folds_in(n.slice, names):
+                req.append((n, _folds_in(n.slice, names)))
+        elif isinstance(n, ast.Call):
+            t = p.resolve_callable(res, n.func)
+            if isinstance(t, Func) and t.qual in (BRIDGE, MEDIATYPES + '.best_match'):
+                for a in list(n.args) + [k.value for k in n.keywords]:
+                    if _mentions_mapping(a):
+                        if any(isinstance(x, ast.Call) and isinstance(x.func, ast.Attribute) and x.func.attr in CASE_FOLDS for x in ast.walk(a)):
+                            raise UnknownIdiom('resolver: the keys are case-folded only for the comparison in %s' % short(n, 80))
+                    elif _text_derived(a, names):
+                        n_ops += 1
+                        if _folds_in(a, names):
+                            req.append((n, _folds_in(a, names)))
+            elif isinstance(n.func, ast.Attribute) and n.func.attr == 'get' and _is_selfdata(n.func.value) and n.args \
+                    and _text_derived(n.args[0], names):
+                n_ops += 1
+                if _folds_in(n.args[0], names):
+                    req.append((n, _folds_in(n.args[0], names)))
+    if n_ops < 2:
+        raise AnchorError('resolver: exact lookup and best-match call on the requested type not found (%d)' % n_ops)
+
+    # --- key side: what Handlers.__setitem__ stores
+    hc = p.cls(HANDLERS)
+    st = hc.methods.get('__setitem__')
+    if st is None:
+        raise AnchorError('%s.__setitem__ is not defined (R3: every writer stores through it)' % HANDLERS)
+    run.use(st)
+    sp = _param_names(st)
+    if len(sp) != 2:
+        raise UnknownIdiom('%s takes %s' % (st.qual, sp))
+    knames = _derived_closure(st.node, sp[0])
+    key: List[Tuple[ast.AST, List[str]]] = []
+    for n in walk_self(st.node):
+        if isinstance(n, ast.stmt) and not isinstance(n, (ast.If, ast.While, ast.For, ast.Try, ast.With)):
+            folds = _folds_in(n, knames)
+            if folds:
+                key.append((n, folds))
+
+    f_req = sorted({f for _, fs in req for f in fs})
+    f_key = sorted({f for _, fs in key for f in fs})
+    what_r = 'resolver: the requested type is compared with the registered keys in the case form the keys are stored in ' \
+             '(folds on the requested type: %s; on the stored keys: %s) - dict lookup and match_score() compare case-sensitively' % (
+                 '/'.join(f_req) or 'none', '/'.join(f_key) or 'none')
+    what_k = '%s.__setitem__ stores the key in the case form the resolver looks it up in (folds on the stored keys: %s; on the ' \
+             'requested type: %s)' % (HANDLERS.rsplit('.', 1)[-1], '/'.join(f_key) or 'none', '/'.join(f_req) or 'none')
+    if f_req == f_key:
+        run.ok(what_r, res.loc(), req[0][0] if req else None)
+        run.ok(what_k, st.loc(), key[0][0] if key else None)
+        return
+    # one-sided (or differently folded): blame the constructs whose folds the other side lacks
+    blamed = False
+    if not any(set(fs) - set(f_key) for _, fs in req):
+        run.ok('resolver: no case fold on the requested type beyond those of the stored keys (folds: %s)' % ('/'.join(f_req) or 'none'), res.loc())
+    if not any(set(fs) - set(f_req) for _, fs in key):
+        run.ok('%s.__setitem__: no case fold on the stored key beyond those of the requested type (folds: %s)' % (
+            HANDLERS.rsplit('.', 1)[-1], '/'.join(f_key) or 'none'), st.loc())
+    for n, fs in req:
+        if set(fs) - set(f_key):
+            blamed = True
+            run.fail(what_r, res, n, where=res.loc(n), witness=['%s applied to the requested type only' % '/'.join(sorted(set(fs) - set(f_key)))],
+                     runtime_witness=_R9_WITNESS)
+    for n, fs in key:
+        if set(fs) - set(f_req):
+            blamed = True
+            run.fail(what_k, st, n, where=st.loc(n), witness=['%s applied to the registered key only' % '/'.join(sorted(set(fs) - set(f_req)))],
+                     runtime_witness="handlers['Application/JSON'] = h is stored under another spelling than the one the resolver looks up")
+    if not blamed:
+        raise UnknownIdiom('resolver / __setitem__: case folds %s vs %s' % (f_req, f_key))
+
+
 class _ModFunc:
     """minimal Func stand-in for module-level resolution"""
 
@@ -2893,4 +3245,8 @@ def check(run):
     run.rule('R4', _safe(r4_resolution), 'resolver: default fallback, exact first, best match over current keys, 415 iff unmatched and asked', floor=8)
     run.rule('R5', _safe(r5_client_negotiation), 'client_accepts/client_prefers map ValueError to False/None', floor=5)
     run.rule('R6', _safe(r6_memo_results_immutable), 'values handed out by memoised parsing helpers are never mutated by their callers', floor=1)
+    run.rule('R8', _safe(r8_q_never_decides_match), 'q never decides whether a range matches: not-matching returns of match_score and the range '
+             'selection of _parse_media_ranges()/quality() do not read it (shared with C04)', floor=5)
+    run.rule('R9', _safe(r9_same_case_form), 'the resolver compares the requested type with the registered keys in one case form: no one-sided '
+             'lower()/upper()/casefold() (shared with C12)', floor=2)
     run.rule('R7', _safe(r7_resolve_by_content_type), 'get_media()/render_body() of both flavours resolve by the content type itself and the options default', floor=12)
